@@ -36,6 +36,9 @@ type Shape struct {
 	// LockPressure: percent of the worlds run under the lock-pressure profile (commits held back except towards one
 	// node, frequent timeouts).
 	LockPressure int
+	// FlagFlips: the operator may set a taking-part validator's watch-only flag in the middle of a view and withdraw a
+	// key in the middle of a height (the flag may be cleared again in any world) - always on in worlds with Watchers.
+	FlagFlips bool
 }
 
 var epoch0 = time.Date(2024, 1, 1, 0, 0, 0, 0, time.UTC)
@@ -312,7 +315,7 @@ func RunSafety(r sim.Src, mons []*sim.Mon, keepLog bool, sh Shape) *sim.World {
 	if sh.ManyTxs {
 		ntx += 3
 	}
-	o := sim.AsyncOpts{Steps: steps, Heights: heights, NoRestart: sh.NoRestart, InitialTxs: ntx, ProfileOnly: sh.Profile, Avoid: sh.Avoid, Probes: sh.Probes, FlagFlips: sh.Watchers}
+	o := sim.AsyncOpts{Steps: steps, Heights: heights, NoRestart: sh.NoRestart, InitialTxs: ntx, ProfileOnly: sh.Profile, Avoid: sh.Avoid, Probes: sh.Probes, FlagFlips: sh.Watchers || sh.FlagFlips}
 	w.Stat(fmt.Sprintf("N=%d", n))
 	if len(byz) > 0 {
 		w.Stat("has_byz")
